@@ -1644,6 +1644,28 @@ class ModularVmap:
                     (out_carry, out_scan),
                 )
 
+            # A primitive that is not interpreted here but carries sampling sites in a
+            # sub-jaxpr: binding it would draw once and broadcast the draw to every lane.
+            elif any(
+                _find_sampling_site(sub) is not None
+                for sub in _sub_jaxprs(eqn.params)
+            ):
+                callee = eqn.params.get("jaxpr", eqn.params.get("call_jaxpr"))
+                if eqn.primitive.name in ("pjit", "jit", "closed_call") and isinstance(
+                    callee, ClosedJaxpr
+                ):
+                    # A jitted callee: vectorize its body with the same interpreter
+                    outvals = ModularVmap.eval_jaxpr_modular_vmap(
+                        axis_size, callee.jaxpr, callee.consts, invals, dummy_arg
+                    )
+                    if not eqn.primitive.multiple_results:
+                        (outvals,) = outvals
+                else:
+                    raise NotImplementedError(
+                        f"modular_vmap cannot vectorize the sampling sites inside `{eqn.primitive.name}`: "
+                        "only cond and scan bodies and jitted callees are interpreted."
+                    )
+
             # Deterministic and not control flow.
             else:
                 outvals = eqn.primitive.bind(*args, **params)
@@ -1693,7 +1715,8 @@ class ModularVmap:
                 axis_size,
                 fn,
             ),
-            in_axes=(0, in_axes),
+            # the arguments travel as one tuple: a list of axes is not a tree prefix of it
+            in_axes=(0, tuple(in_axes) if isinstance(in_axes, list) else in_axes),
             axis_size=axis_size,
             axis_name=axis_name,
             spmd_axis_name=spmd_axis_name,
